@@ -330,7 +330,7 @@ def check(chk: Check) -> None:
     chk.undecided += ["that the emitted bytes parse back to the input (C01/C02)"]
 
     jobs: list[tuple] = []
-    n_shapes = (2,) if chk.tier == "quick" else (1, 2)
+    n_shapes = (2,) if chk.tier == "quick" else (1, 2, 3)
     for pt in lattice(prog, chk.tier):
         for entry in DIRECT:
             if pt.get("ns") and entry[2] == "generator":
